@@ -49,6 +49,7 @@ def run(chk, judge, weights):
     nsynth = 0
     for kind, cnt in (('c06', 24 if quick else 300), ('hostile', 12 if quick else 150), ('just', 12 if quick else 150), ('feat', 24 if quick else 300)):
         lst, paths = synthwork.make_fonts(kind, chk.seed, cnt)
+        paths = [p_ for p_ in paths if '_jx' not in p_]          # (justification arithmetic at the attribute range's edges: C19's KF-C19-3)
         nsynth += len(paths)
         for p in paths:
             for mut, (q, th) in weights.items():
